@@ -61,13 +61,20 @@ def ymd_roundtrip_daily(K):
     K.ensure("to_ymd(from_ymd(y,m,d))==(y,m,d)", K.And(y2 == yy, m2 == mm, d2 == dd))
 
 
-@contract("C11", targets=[P + "Period.to_python_date", P + "Period.from_python_date"],
+@contract("C11", targets=[P + "Period.to_python_date", P + "Period.from_python_date", P + "periods_from_python_dates"],
           instances=[(c, pos) for c in CAL for pos in POS])
 def python_date_roundtrip(K, cls, pos):
     p = cal_period(K, cls)
     dt = K.method(p, "to_python_date", position=pos)
     back = K.call(D.Period.from_python_date, dt, frequency=FREQ[cls])
     K.ensure("from_python_date(to_python_date(p,pos))==p", same(K, back, cls, p))
+    tup = K.call(D.periods_from_python_dates, (dt, dt), frequency=FREQ[cls])
+    K.ensure("periods_from_python_dates: one period per date", K.length(tup) == 2)
+    K.ensure("periods_from_python_dates(.., frequency) gives the same periods as the one-by-one form",
+             K.And(same(K, K.index(tup, 0), cls, p), same(K, K.index(tup, 1), cls, p)))
+    if cls is D.DailyPeriod:
+        tup = K.call(D.periods_from_python_dates, (dt,))
+        K.ensure("periods_from_python_dates: daily when no frequency is given", same(K, K.index(tup, 0), cls, p))
 
 
 @contract("C11", targets=[P + "Period.to_iso_string", P + "Period.from_iso_string", P + "RegularPeriodMixin.from_iso_string",
@@ -254,3 +261,22 @@ def generic_constructors_agree_with_the_class_constructors(K, cls):
         yy, mm, dd = K.method(p, "to_ymd", position="start")
         back2 = K.call(D.Period.from_ymd, FREQ[cls], yy, mm, dd)
         K.ensure("from_ymd(freq, *p.to_ymd()) == p", same(K, back2, cls, p))
+
+
+HISTORY = [(a, b) for a in ALL for b in ALL if a is not b]
+
+
+_QUICK_HISTORY = [(a, b) for a, b in HISTORY if a in (D.YearlyPeriod, D.MonthlyPeriod) or b is D.YearlyPeriod]
+
+
+@contract("C11", targets=[P + "Frequency.from_sdmx_string", P + "Period.from_sdmx_string"], instances=_QUICK_HISTORY, opts={"max_paths": 3000},
+          thorough=[h for h in HISTORY if h not in _QUICK_HISTORY])
+def sdmx_detection_does_not_depend_on_earlier_calls(K, first, cls):
+    """History: whatever string was parsed before (here one of another frequency), the library's own SDMX string of a
+    period is detected as its frequency and parses back to the period - detection keeps no memory between calls."""
+    q = cal_period(K, first, "earlier")
+    K.call(D.Period.from_sdmx_string, K.method(q, "to_sdmx_string"))
+    p = cal_period(K, cls)
+    s = K.method(p, "to_sdmx_string")
+    K.ensure("frequency auto-detected after an earlier call", K.call(D.Frequency.from_sdmx_string, s) is FREQ[cls])
+    K.ensure("round trip after an earlier call", same(K, K.call(D.Period.from_sdmx_string, s), cls, p))
